@@ -2124,8 +2124,22 @@ func (s *compressedBodyStream) Close() error {
 }
 
 func (s *compressedBodyStream) write(sw *bufio.Writer) {
-	s.closeErr = s.closeOriginal(s.compress(sw, s.bodyStream, s.level))
+	s.closeErr = s.closeOriginal(s.compressOriginal(sw))
 	close(s.done)
+}
+
+// compressOriginal runs on the goroutine of the stream reader: a panic raised
+// by the original stream's Read must not take the whole process down. It is
+// reported like a read error, as writeBodyStream does for plain body streams.
+func (s *compressedBodyStream) compressOriginal(sw *bufio.Writer) (err error) {
+	defer func() {
+		if r := recover(); r != nil {
+			err = &ErrBodyStreamWritePanic{
+				error: fmt.Errorf("panic while compressing body stream: %+v", r),
+			}
+		}
+	}()
+	return s.compress(sw, s.bodyStream, s.level)
 }
 
 func (s *compressedBodyStream) closeOriginal(wErr error) error {
